@@ -76,26 +76,26 @@ pub fn bounds_for(tier: Tier, mode: Mode) -> Bounds {
         Tier::Quick => Bounds {
             workers: 16,
             watchdog_s: 10.0,
-            horizon: 50_000,
+            horizon: 20_000,
             max_depth: 12,
-            k1_pos_cap: 1024,
+            k1_pos_cap: 2048,
             k1_seed_cap: 16 * 1024,
             k2_len: 96,
             k2_seeds_per_type: 1,
             zero_len: 96,
             purity_every_case: false,
-            deadline_s: 50.0,
+            deadline_s: 45.0,
             chunk: 256,
         },
         Tier::Thorough => Bounds {
             workers: 16,
             watchdog_s: 20.0,
-            horizon: 200_000,
+            horizon: 100_000,
             max_depth: 12,
-            k1_pos_cap: 64 * 1024,
+            k1_pos_cap: 16 * 1024,
             k1_seed_cap: usize::MAX,
-            k2_len: 256,
-            k2_seeds_per_type: 4,
+            k2_len: 160,
+            k2_seeds_per_type: 2,
             zero_len: 160,
             purity_every_case: true,
             deadline_s: 1500.0,
@@ -103,8 +103,9 @@ pub fn bounds_for(tier: Tier, mode: Mode) -> Bounds {
         },
     };
     if mode == Mode::C20 {
-        // the strict profile is ~2x slower
-        b.deadline_s = tier.pick(52.0, 1500.0);
+        // the strict profile is 2-3x slower: halve the quick position cap
+        b.deadline_s = tier.pick(45.0, 1500.0);
+        b.k1_pos_cap = tier.pick(1024, b.k1_pos_cap);
     }
     if let Some(v) = env("VERIF_THREADS") {
         b.workers = (v as usize).max(1);
@@ -156,9 +157,10 @@ fn proper_atoms(seed: &Seed) -> Vec<Atom> {
     v
 }
 
-pub fn make_plan(tier: Tier, mode: Mode, cfg: &EngineConfig) -> Plan {
+/// Pure planning (no code under test is executed): turn the seed list into work units.
+pub fn make_plan(tier: Tier, mode: Mode, cfg: &EngineConfig, seeds: Vec<Seed>, stats: SeedStats) -> Plan {
     let b = bounds_for(tier, mode);
-    let (mut seeds, stats) = build_seeds(tier);
+    let mut seeds = seeds;
     // C02 drivers plug in here: extra drivers are attached to whole-file seeds by index
     // (usize::MAX - i marks extra driver i; see exec()).
     for s in seeds.iter_mut() {
@@ -368,10 +370,62 @@ pub struct CaseOutcome {
     pub calls: u64,
     pub read_ok: bool,
     pub horizon_hit: bool,
+    /// outcome class for the quick-tier purity rule: (read shape, root fields, log2 of calls)
+    pub class: u32,
 }
 
 /// (kind, identity, what) of a violation found while executing one case in-process
 pub type Found = (String, String, String);
+
+thread_local! {
+    static PANIC_FN: std::cell::RefCell<BTreeMap<(String, u32), String>> = const { std::cell::RefCell::new(BTreeMap::new()) };
+}
+
+/// Wrap the vcore panic hook: the first time a panic is seen at a given (file, line), capture a
+/// backtrace and remember the innermost frame that belongs to a repository crate, so identities can
+/// name the function instead of a line number.
+pub fn install_fn_hook() {
+    vcore::install_panic_hook();
+    let inner = std::panic::take_hook();
+    std::panic::set_hook(Box::new(move |info| {
+        if let Some(l) = info.location() {
+            let key = (l.file().to_string(), l.line());
+            let known = PANIC_FN.with(|m| m.borrow().contains_key(&key));
+            if !known {
+                let bt = std::backtrace::Backtrace::force_capture().to_string();
+                let mut name = String::new();
+                for line in bt.lines() {
+                    let t = line.trim_start();
+                    let Some((_, sym)) = t.split_once(": ") else { continue };
+                    if !t.as_bytes().first().map(|c| c.is_ascii_digit()).unwrap_or(false) {
+                        continue;
+                    }
+                    let s = sym.trim_start_matches('<');
+                    if ["read_fonts::", "font_types::", "skrifa::", "write_fonts::", "incremental_font_transfer::", "klippa::"]
+                        .iter()
+                        .any(|p| s.starts_with(p))
+                    {
+                        name = sym.to_string();
+                        break;
+                    }
+                }
+                // drop the hash suffix and closure markers
+                if let Some(i) = name.rfind("::h") {
+                    if name[i + 3..].chars().all(|c| c.is_ascii_hexdigit()) {
+                        name.truncate(i);
+                    }
+                }
+                let name = name.replace("::{{closure}}", "");
+                PANIC_FN.with(|m| m.borrow_mut().insert(key, name));
+            }
+        }
+        inner(info);
+    }));
+}
+
+pub fn fn_of(p: &vcore::PanicInfo) -> String {
+    PANIC_FN.with(|m| m.borrow().get(&(p.file.clone(), p.line)).cloned().unwrap_or_default())
+}
 
 pub fn site_of(p: &vcore::PanicInfo) -> String {
     let root = vcore::repo_root();
@@ -419,6 +473,7 @@ pub fn run_case(
                 calls: w.calls,
                 read_ok: w.read_ok,
                 horizon_hit: w.horizon_hit,
+                class: ((w.read_ok as u32) << 24) | (w.root_fields.min(255) << 16) | ((64 - w.calls.leading_zeros()) << 8) | (w.errs.min(255)),
             })
         }
         Err(p) => {
@@ -426,12 +481,12 @@ pub fn run_case(
             if cfg.mode == Mode::C20 && !arith {
                 *ignored += 1;
                 // not this property's business (C01/C02 run in release)
-                return Ok(CaseOutcome { digest: 0x9A41C, nontrivial: false, calls: w.calls, read_ok: w.read_ok, horizon_hit: false });
+                return Ok(CaseOutcome { digest: 0x9A41C, nontrivial: false, calls: w.calls, read_ok: w.read_ok, horizon_hit: false, class: 0 });
             }
             let kind = if arith { "overflow" } else { "panic" };
             Err((
                 kind.into(),
-                format!("{} {}: {}", kind, site_of(&p), p.kind()),
+                format!("{} {} fn={}: {}", kind, site_of(&p), fn_of(&p), p.kind()),
                 format!("{} at {}:{} — {}", kind, p.file, p.line, p.message),
             ))
         }
@@ -509,13 +564,22 @@ fn unhex16(s: &str) -> Vec<u64> {
 }
 
 pub fn worker_main(cfg: EngineConfig) -> ! {
-    vcore::install_panic_hook();
+    install_fn_hook();
     let tier = match std::env::var("VERIF_TIER").as_deref() {
         Ok("thorough") => Tier::Thorough,
         _ => Tier::Quick,
     };
     let b = bounds_for(tier, cfg.mode);
-    let plan = make_plan(tier, cfg.mode, &cfg);
+    if std::env::var("VERIF_WORKER").as_deref() == Ok("plan") {
+        // seed construction child: parses the pristine corpus with the code under test
+        let (seeds, st) = build_seeds(tier);
+        let path = std::env::var("VERIF_SEEDS").expect("VERIF_SEEDS");
+        std::fs::write(&path, crate::seeds::serialize(&seeds, &st)).expect("write seeds");
+        println!("PLANNED\t{}", seeds.len());
+        std::process::exit(0);
+    }
+    let (seeds, st) = load_seeds().expect("seed file");
+    let plan = make_plan(tier, cfg.mode, &cfg, seeds, st);
     let seeds = Arc::new(plan.seeds);
     let units = plan.units;
     let prog = Progress::open(std::path::Path::new(&std::env::var("VERIF_PROGRESS").expect("VERIF_PROGRESS"))).expect("progress file");
@@ -544,7 +608,7 @@ pub fn worker_main(cfg: EngineConfig) -> ! {
                 let mut ignored = 0u64;
                 let mut horizon = 0u64;
                 let mut purity_n = 0u64;
-                let mut unit_seen: HashSet<u64> = HashSet::new();
+                let mut unit_seen: HashSet<u32> = HashSet::new();
                 let mut new_all: Vec<u64> = vec![];
                 let mut new_nt: Vec<u64> = vec![];
                 for_each_case(seed, unit, |no, base_len, dev| {
@@ -560,8 +624,11 @@ pub fn worker_main(cfg: EngineConfig) -> ! {
                             ok += o.read_ok as u64;
                             nt += o.nontrivial as u64;
                             horizon += o.horizon_hit as u64;
-                            let fresh = unit_seen.insert(o.digest);
-                            if cfg.mode == Mode::C01 && (b.purity_every_case || fresh) {
+                            let fresh = unit_seen.insert(o.class);
+                            // thorough: every k=1 case of table/file/static seeds; otherwise the first case of
+                            // each new outcome class within the unit
+                            let every = b.purity_every_case && seed.class != "zero" && matches!(unit.kind, UnitKind::K1 { .. });
+                            if cfg.mode == Mode::C01 && (every || fresh) {
                                 purity_n += 1;
                                 if let Some((k, id, what)) = purity(unit.seed, seed, &buf, o.digest, &cfg, &b, &helper) {
                                     let v = json!({"kind": k, "identity": id, "what": what, "unit": ui, "case": no});
@@ -636,6 +703,54 @@ struct Slot {
     prog: Arc<Progress>,
 }
 
+fn load_seeds() -> Option<(Vec<Seed>, SeedStats)> {
+    let path = std::env::var("VERIF_SEEDS").ok()?;
+    let b = std::fs::read(path).ok()?;
+    crate::seeds::deserialize(&b)
+}
+
+/// Build the seed list in a supervised child (the pristine corpus is parsed by the code under test).
+/// Err((kind, what)) when the child hangs, aborts or fails.
+fn plan_in_child(tier: Tier, seeds_path: &std::path::Path) -> Result<(Vec<Seed>, SeedStats), (String, String)> {
+    let exe = std::env::current_exe().map_err(|e| ("machinery".to_string(), e.to_string()))?;
+    let mut child = Command::new(exe)
+        .env("VERIF_WORKER", "plan")
+        .env("VERIF_TIER", tier.name())
+        .env("VERIF_SEEDS", seeds_path)
+        .stdin(Stdio::null())
+        .stdout(Stdio::null())
+        .stderr(Stdio::piped())
+        .spawn()
+        .map_err(|e| ("machinery".to_string(), e.to_string()))?;
+    let t0 = Instant::now();
+    loop {
+        match child.try_wait() {
+            Ok(Some(st)) => {
+                if st.success() {
+                    break;
+                }
+                let mut err = String::new();
+                if let Some(mut e) = child.stderr.take() {
+                    use std::io::Read;
+                    let _ = e.read_to_string(&mut err);
+                }
+                return Err((death_kind(st, false), err.chars().take(400).collect()));
+            }
+            Ok(None) => {
+                if t0.elapsed().as_secs_f64() > 90.0 {
+                    let _ = child.kill();
+                    let _ = child.wait();
+                    return Err(("timeout".into(), "seed construction did not finish within 90 s".into()));
+                }
+                std::thread::sleep(Duration::from_millis(10));
+            }
+            Err(e) => return Err(("machinery".into(), e.to_string())),
+        }
+    }
+    let b = std::fs::read(seeds_path).map_err(|e| ("machinery".to_string(), e.to_string()))?;
+    crate::seeds::deserialize(&b).ok_or(("machinery".to_string(), "seed file does not parse".to_string()))
+}
+
 fn spawn_worker(idx: usize, tier: Tier, dir: &std::path::Path, prog: Arc<Progress>, pid_cell: &AtomicI32) -> std::io::Result<Slot> {
     let exe = std::env::current_exe()?;
     let path = dir.join(format!("w{idx}.progress"));
@@ -644,6 +759,7 @@ fn spawn_worker(idx: usize, tier: Tier, dir: &std::path::Path, prog: Arc<Progres
         .env("VERIF_WORKER", "1")
         .env("VERIF_TIER", tier.name())
         .env("VERIF_PROGRESS", &path)
+        .env("VERIF_SEEDS", dir.join("seeds.bin"))
         .stdin(Stdio::piped())
         .stdout(Stdio::piped())
         .stderr(Stdio::null())
@@ -673,11 +789,14 @@ struct Totals {
     horizon: u64,
     purity: u64,
     restarts: u64,
+    abandoned: u64,
+    unconfirmed: u64,
     all: HashSet<u64>,
     nt: HashSet<u64>,
     violations: Vec<ViolationRec>,
     units_done: usize,
     by_class: BTreeMap<String, u64>,
+    ok_by_type: BTreeMap<usize, u64>,
     machinery: Option<String>,
 }
 
@@ -695,20 +814,28 @@ fn death_kind(status: std::process::ExitStatus, killed: bool) -> String {
 }
 
 /// Drive `units` (indices into plan.units) or explicit X commands through the worker pool.
-fn supervise(plan: &Plan, tier: Tier, b: &Bounds, explicit: Option<Vec<String>>, run: &Run) -> Totals {
+fn work_dir(run: &Run) -> std::path::PathBuf {
     let dir = std::env::temp_dir().join(format!("verif-{}-{}", run.property.to_lowercase(), std::process::id()));
     let _ = std::fs::create_dir_all(&dir);
+    dir
+}
+
+fn supervise(plan: &Plan, tier: Tier, b: &Bounds, explicit: Option<Vec<String>>, run: &Run) -> Totals {
+    let dir = work_dir(run);
     let n_units = explicit.as_ref().map(|e| e.len()).unwrap_or(plan.units.len());
     let next = AtomicUsize::new(0);
     let totals = Mutex::new(Totals::default());
     let workers = if explicit.is_some() { 1 } else { b.workers };
-    let start = Instant::now();
+    // deadlines are measured from the start of the run (planning and start-up included)
+    let start = Instant::now() - Duration::from_secs_f64(run.elapsed());
     let deadline_hit = AtomicBool::new(false);
+    let hard_stop = AtomicBool::new(false);
     let done = AtomicBool::new(false);
     // per-slot shared state for the watchdog
     let pids: Vec<AtomicI32> = (0..workers).map(|_| AtomicI32::new(0)).collect();
     let busy: Vec<AtomicBool> = (0..workers).map(|_| AtomicBool::new(false)).collect();
     let killed: Vec<AtomicBool> = (0..workers).map(|_| AtomicBool::new(false)).collect();
+    let wd_factor: Vec<AtomicU64> = (0..workers).map(|_| AtomicU64::new(1)).collect();
     let progs: Vec<Arc<Progress>> = (0..workers)
         .map(|i| Arc::new(Progress::open(&dir.join(format!("w{i}.progress"))).expect("progress file")))
         .collect();
@@ -719,6 +846,18 @@ fn supervise(plan: &Plan, tier: Tier, b: &Bounds, explicit: Option<Vec<String>>,
             let mut last: Vec<(u64, Instant)> = (0..workers).map(|_| (u64::MAX, Instant::now())).collect();
             while !done.load(Ordering::SeqCst) {
                 std::thread::sleep(Duration::from_millis(25));
+                if explicit.is_none() && start.elapsed().as_secs_f64() > b.deadline_s + 8.0 && !hard_stop.swap(true, Ordering::SeqCst) {
+                    // hard stop: units still running 8 s after the deadline are cut (a cap, not a verdict)
+                    for i in 0..workers {
+                        let pid = pids[i].load(Ordering::SeqCst);
+                        if pid > 0 {
+                            // SAFETY: plain kill(2) on our own children
+                            unsafe {
+                                libc::kill(pid, libc::SIGKILL);
+                            }
+                        }
+                    }
+                }
                 for i in 0..workers {
                     if !busy[i].load(Ordering::SeqCst) {
                         last[i] = (u64::MAX, Instant::now());
@@ -727,7 +866,7 @@ fn supervise(plan: &Plan, tier: Tier, b: &Bounds, explicit: Option<Vec<String>>,
                     let (_u, _c, seq) = progs[i].get();
                     if seq != last[i].0 {
                         last[i] = (seq, Instant::now());
-                    } else if last[i].1.elapsed().as_secs_f64() > b.watchdog_s {
+                    } else if last[i].1.elapsed().as_secs_f64() > b.watchdog_s * wd_factor[i].load(Ordering::SeqCst) as f64 {
                         let pid = pids[i].load(Ordering::SeqCst);
                         if pid > 0 && !killed[i].swap(true, Ordering::SeqCst) {
                             // SAFETY: plain kill(2) on our own child
@@ -742,14 +881,18 @@ fn supervise(plan: &Plan, tier: Tier, b: &Bounds, explicit: Option<Vec<String>>,
         });
         let mut handles = vec![];
         for wi in 0..workers {
-            let (next, totals, pids, busy, killed, progs, dir, explicit, deadline_hit) =
-                (&next, &totals, &pids, &busy, &killed, &progs, &dir, &explicit, &deadline_hit);
+            let (next, totals, pids, busy, killed, progs, dir, explicit, deadline_hit, hard_stop, wd_factor) =
+                (&next, &totals, &pids, &busy, &killed, &progs, &dir, &explicit, &deadline_hit, &hard_stop, &wd_factor);
             handles.push(sc.spawn(move || {
                 let mut local = Totals::default();
                 let mut slot: Option<Slot> = None;
                 let mut pending: Option<(usize, u64)> = None; // (unit, skip) to resume after a death
+                let mut unit_deaths: BTreeMap<usize, u32> = BTreeMap::new();
                 'outer: loop {
                     // (re)start the worker when needed
+                    if slot.is_none() && hard_stop.load(Ordering::SeqCst) {
+                        break 'outer;
+                    }
                     if slot.is_none() {
                         match spawn_worker(wi, tier, dir, progs[wi].clone(), &pids[wi]) {
                             Ok(mut s) => {
@@ -834,6 +977,9 @@ fn supervise(plan: &Plan, tier: Tier, b: &Bounds, explicit: Option<Vec<String>>,
                                         _ => format!("cases_{}_k1", cls),
                                     };
                                     *local.by_class.entry(k).or_insert(0) += g(1);
+                                    if let Some(t) = plan.seeds[plan.units[ui].seed].ty {
+                                        *local.ok_by_type.entry(t).or_insert(0) += g(3);
+                                    }
                                 }
                                 finished = true;
                                 break;
@@ -841,6 +987,14 @@ fn supervise(plan: &Plan, tier: Tier, b: &Bounds, explicit: Option<Vec<String>>,
                         }
                     }
                     busy[wi].store(false, Ordering::SeqCst);
+                    if !finished && hard_stop.load(Ordering::SeqCst) {
+                        let mut s = slot.take().unwrap();
+                        let _ = s.child.kill();
+                        let _ = s.child.wait();
+                        local.abandoned += 1;
+                        deadline_hit.store(true, Ordering::SeqCst);
+                        break 'outer;
+                    }
                     if !finished {
                         // the worker died (or was killed by the watchdog) with a case in flight
                         let mut s = slot.take().unwrap();
@@ -850,6 +1004,7 @@ fn supervise(plan: &Plan, tier: Tier, b: &Bounds, explicit: Option<Vec<String>>,
                         let status = s.child.wait();
                         let kind = status.map(|st| death_kind(st, was_killed)).unwrap_or_else(|_| "unknown".into());
                         local.restarts += 1;
+                        eprintln!("[supervisor] worker {wi} ended with `{kind}` at unit {ui} case {pc} (progress unit {pu}); restart #{}", local.restarts);
                         let in_flight_ok = explicit.is_some() || pu == ui as u64 + 1;
                         if !in_flight_ok {
                             local.machinery = Some(format!(
@@ -858,15 +1013,75 @@ fn supervise(plan: &Plan, tier: Tier, b: &Bounds, explicit: Option<Vec<String>>,
                             ));
                             break 'outer;
                         }
-                        local.violations.push(ViolationRec {
-                            unit: ui,
-                            case: pc,
-                            kind: kind.clone(),
-                            identity: String::new(), // filled in by the caller (needs the seed)
-                            what: format!("worker process ended with `{kind}` while this case was in flight"),
-                        });
+                        // A watchdog timeout is wall-clock based; on an overloaded machine a healthy case can
+                        // be starved. Confirm it: re-execute exactly that case alone in a fresh worker with
+                        // three times the watchdog period. Only a second timeout is a violation.
+                        let mut confirmed = true;
+                        if kind == "timeout" && explicit.is_none() {
+                            if let Some((bl, dev)) = case_of(plan, ui, pc) {
+                                if let Ok(mut s2) = spawn_worker(wi, tier, dir, progs[wi].clone(), &pids[wi]) {
+                                    let mut line = String::new();
+                                    let ready = matches!(s2.reader.read_line(&mut line), Ok(n) if n > 0 && line.starts_with("READY"));
+                                    if ready {
+                                        let cmd = format!("X\t{}\t{}\t{}\n", plan.units[ui].seed, bl, dev.to_json());
+                                        wd_factor[wi].store(3, Ordering::SeqCst);
+                                        killed[wi].store(false, Ordering::SeqCst);
+                                        busy[wi].store(true, Ordering::SeqCst);
+                                        let _ = s2.stdin.write_all(cmd.as_bytes()).and_then(|_| s2.stdin.flush());
+                                        loop {
+                                            line.clear();
+                                            match s2.reader.read_line(&mut line) {
+                                                Ok(0) | Err(_) => break,
+                                                Ok(_) => {}
+                                            }
+                                            if let Some(rest) = line.trim_end_matches('\n').strip_prefix("V\t") {
+                                                if let Ok(v) = serde_json::from_str::<Value>(rest) {
+                                                    local.violations.push(ViolationRec {
+                                                        unit: ui,
+                                                        case: pc,
+                                                        kind: v["kind"].as_str().unwrap_or("").into(),
+                                                        identity: v["identity"].as_str().unwrap_or("").into(),
+                                                        what: v["what"].as_str().unwrap_or("").into(),
+                                                    });
+                                                }
+                                            } else if line.starts_with("R\t") {
+                                                confirmed = false;
+                                                break;
+                                            }
+                                        }
+                                        busy[wi].store(false, Ordering::SeqCst);
+                                        wd_factor[wi].store(1, Ordering::SeqCst);
+                                    }
+                                    if confirmed {
+                                        let _ = s2.child.kill();
+                                        let _ = s2.child.wait();
+                                    } else {
+                                        slot = Some(s2);
+                                        local.unconfirmed += 1;
+                                        eprintln!("[supervisor] timeout at unit {ui} case {pc} NOT confirmed on re-execution (machine overload); not a violation");
+                                    }
+                                }
+                            }
+                        }
+                        if confirmed {
+                            local.violations.push(ViolationRec {
+                                unit: ui,
+                                case: pc,
+                                kind: kind.clone(),
+                                identity: String::new(), // filled in by the caller (needs the seed)
+                                what: format!("worker process ended with `{kind}` while this case was in flight{}", if kind == "timeout" { " (confirmed by a second, isolated execution with 3x the watchdog period)" } else { "" }),
+                            });
+                        }
+                        // resume the unit after the fatal case — at most 3 deaths per unit and never past the
+                        // deadline (each timeout costs a full watchdog period)
+                        let deaths = unit_deaths.entry(ui).or_insert(0u32);
+                        *deaths += 1;
                         if explicit.is_none() {
-                            pending = Some((ui, pc + 1));
+                            if *deaths < 3 && start.elapsed().as_secs_f64() < b.deadline_s {
+                                pending = Some((ui, pc + 1));
+                            } else {
+                                local.abandoned += 1;
+                            }
                         }
                         if local.restarts > 200 {
                             local.machinery = Some("more than 200 worker restarts in one slot".into());
@@ -888,12 +1103,17 @@ fn supervise(plan: &Plan, tier: Tier, b: &Bounds, explicit: Option<Vec<String>>,
                 t.horizon += local.horizon;
                 t.purity += local.purity;
                 t.restarts += local.restarts;
+                t.abandoned += local.abandoned;
+                t.unconfirmed += local.unconfirmed;
                 t.units_done += local.units_done;
                 t.all.extend(local.all);
                 t.nt.extend(local.nt);
                 t.violations.extend(local.violations);
                 for (k, v) in local.by_class {
                     *t.by_class.entry(k).or_insert(0) += v;
+                }
+                for (k, v) in local.ok_by_type {
+                    *t.ok_by_type.entry(k).or_insert(0) += v;
                 }
                 if t.machinery.is_none() {
                     t.machinery = local.machinery;
@@ -905,13 +1125,15 @@ fn supervise(plan: &Plan, tier: Tier, b: &Bounds, explicit: Option<Vec<String>>,
         }
         done.store(true, Ordering::SeqCst);
     });
-    let _ = std::fs::remove_dir_all(&dir);
     let mut t = totals.into_inner().unwrap();
     if deadline_hit.load(Ordering::SeqCst) {
         run.cap_hit(&format!(
             "deadline of {:.0} s reached: {} of {} units executed (units are taken in plan order)",
             b.deadline_s, t.units_done, n_units
         ));
+    }
+    if t.abandoned > 0 {
+        run.cap_hit(&format!("{} work units were cut short (3 worker deaths in the unit, a death past the deadline, or the hard stop 8 s after the deadline); their remaining cases were not executed", t.abandoned));
     }
     t.violations.sort_by(|a, b| (a.unit, a.case, &a.identity).cmp(&(b.unit, b.case, &b.identity)));
     t
@@ -961,7 +1183,39 @@ pub fn engine_body(run: &Run, replay: Option<&Value>, cfg: &EngineConfig) {
     if cfg.mode == Mode::C20 {
         run.assume("C20 classifier: only panics whose payload is an arithmetic overflow / 'attempt to ...' / assertion failure count; other panics are ignored here (C01/C02 judge them in release builds)");
     }
-    let plan = make_plan(tier, cfg.mode, cfg);
+    let dir = work_dir(run);
+    struct Cleanup(std::path::PathBuf);
+    impl Drop for Cleanup {
+        fn drop(&mut self) {
+            let _ = std::fs::remove_dir_all(&self.0);
+        }
+    }
+    let _cleanup = Cleanup(dir.clone());
+    let (seeds, stats) = match plan_in_child(tier, &dir.join("seeds.bin")) {
+        Ok(x) => x,
+        Err((kind, what)) if kind == "machinery" => {
+            run.machinery_error(&format!("seed construction child: {what}"));
+            return;
+        }
+        Err((kind, what)) => {
+            // parsing the pristine corpus / static blobs with the code under test hung or aborted
+            if cfg.mode == Mode::C01 || what.contains("attempt to") || what.contains("overflow") || what.contains("assertion") {
+                run.violation(
+                    &format!("{kind} seed-construction (pristine corpus parse)"),
+                    &format!("building the seed list (FontRef/table reads of the unmodified corpus and static blobs) ended with `{kind}`: {what}"),
+                    json!({"seed": "<seed construction>", "dev": [{"k": "none"}]}),
+                );
+                run.eval();
+                run.observe(1, true);
+                run.observe(2, true);
+                run.sample(json!({"seed": "<seed construction>"}));
+            } else {
+                run.machinery_error(&format!("seed construction child failed: {kind}: {what}"));
+            }
+            return;
+        }
+    };
+    let plan = make_plan(tier, cfg.mode, cfg, seeds, stats);
 
     if let Some(case) = replay {
         let name = case["seed"].as_str().unwrap_or("");
@@ -1012,7 +1266,7 @@ pub fn engine_body(run: &Run, replay: Option<&Value>, cfg: &EngineConfig) {
     run.bound("u16_alphabet", json!("0,1,0x7FFF,0x8000,0xFFFF,n-2,n-1,n,n+1,pos,pos+1,pos+2 at every even position"));
     run.bound("u32_alphabet", json!("n-1,n,n+1,0x7FFFFFFF,0x80000000,0xFFFFFFFF at every even position"));
     run.bound("extensions", json!("{1,2,4} bytes of 00 / FF"));
-    run.bound("purity", json!(if b.purity_every_case { "every case" } else { "first case of each work unit producing each new digest" }));
+    run.bound("purity", json!(if b.purity_every_case { "every k=1 case of table/file/static seeds; k=2 and zero seeds: first case of each work unit producing each new outcome class" } else { "first case of each work unit producing each new outcome class (read ok?, root field count, log2(accessor calls), error count)" }));
     let mut n_by_class: BTreeMap<&str, u64> = BTreeMap::new();
     for s in &plan.seeds {
         *n_by_class.entry(s.class).or_insert(0) += 1;
@@ -1037,32 +1291,6 @@ pub fn engine_body(run: &Run, replay: Option<&Value>, cfg: &EngineConfig) {
         run.cap_hit(c);
     }
 
-    // ---- determinism self-test: the first units' cases give the same digests when run twice
-    {
-        let mut ign = 0;
-        let mut checked = 0;
-        'st: for u in plan.units.iter().filter(|u| plan.seeds[u.seed].class != "zero").take(4) {
-            let seed = &plan.seeds[u.seed];
-            let mut bad = false;
-            let mut buf = vec![];
-            for_each_case(seed, u, |no, bl, dev| {
-                dev.apply(&seed.data[..bl], &mut buf);
-                let a = run_case(seed, &buf, cfg, &b, &mut ign).ok().map(|o| o.digest);
-                let c = run_case(seed, &buf, cfg, &b, &mut ign).ok().map(|o| o.digest);
-                if a != c {
-                    bad = true;
-                }
-                checked += 1;
-                no < 8 && !bad
-            });
-            if bad && cfg.mode == Mode::C20 {
-                run.machinery_error("determinism self-test failed (same case, different digest)");
-                break 'st;
-            }
-        }
-        run.count("self_test_cases", checked);
-    }
-
     // ---- the sweep ------------------------------------------------------------------------
     let t = supervise(&plan, tier, &b, None, run);
     if let Some(m) = &t.machinery {
@@ -1076,6 +1304,7 @@ pub fn engine_body(run: &Run, replay: Option<&Value>, cfg: &EngineConfig) {
     run.count("cases_horizon_hit", t.horizon);
     run.count("purity_rewalk_triples", t.purity);
     run.count("worker_restarts", t.restarts);
+    run.count("timeouts_not_confirmed_on_reexecution", t.unconfirmed);
     run.count("units_done", t.units_done as u64);
     if cfg.mode == Mode::C20 {
         run.count("non_arithmetic_panics_ignored", t.ignored);
@@ -1083,6 +1312,16 @@ pub fn engine_body(run: &Run, replay: Option<&Value>, cfg: &EngineConfig) {
     for (k, v) in &t.by_class {
         run.count(k, *v);
     }
+    // vacuity guard per registry type: which types were never read successfully *as the top-level
+    // type of a case* (they may still be reached through offsets of other tables)
+    let never: Vec<&str> = crate::registry::TYPES
+        .iter()
+        .enumerate()
+        .filter(|(i, _)| t.ok_by_type.get(i).copied().unwrap_or(0) == 0)
+        .map(|(_, t)| t.name)
+        .collect();
+    run.count("registry_types_read_ok_directly", (crate::registry::TYPES.len() - never.len()) as u64);
+    run.extra("registry_types_never_read_ok_directly", json!(never));
     // samples: the first cases of the first table units
     for u in plan.units.iter().filter(|u| plan.seeds[u.seed].class == "table").take(3) {
         if let Some((bl, dev)) = case_of(&plan, plan.units.iter().position(|x| std::ptr::eq(x, u)).unwrap(), 7) {
@@ -1092,9 +1331,16 @@ pub fn engine_body(run: &Run, replay: Option<&Value>, cfg: &EngineConfig) {
         }
     }
     // violations, in (unit, case) order so that the reported example per identity is deterministic
+    let mut deaths_ignored = 0u64;
     for v in &t.violations {
         let u = &plan.units[v.unit];
         let seed = &plan.seeds[u.seed];
+        if cfg.mode == Mode::C20 && v.identity.is_empty() {
+            // timeouts / aborts are totality failures: C01/C02's verdict, only counted here
+            deaths_ignored += 1;
+            eprintln!("[C20] ignoring non-arithmetic worker death `{}` on seed {} (belongs to C01/C02)", v.kind, seed.name);
+            continue;
+        }
         let Some((bl, dev)) = case_of(&plan, v.unit, v.case) else {
             run.machinery_error(&format!("violation refers to case {} of unit {} which does not exist", v.case, v.unit));
             continue;
@@ -1105,6 +1351,9 @@ pub fn engine_body(run: &Run, replay: Option<&Value>, cfg: &EngineConfig) {
             v.identity.clone()
         };
         run.violation(&id, &v.what, replay_json(&plan, u.seed, bl, &dev));
+    }
+    if cfg.mode == Mode::C20 {
+        run.count("non_arithmetic_worker_deaths_ignored", deaths_ignored);
     }
 }
 
@@ -1128,6 +1377,51 @@ pub fn engine_main(cfg: EngineConfig) -> ! {
     if std::env::var("VERIF_WORKER").is_ok() {
         worker_main(cfg);
     }
+    if std::env::var("C01_PROFILE").is_ok() {
+        profile(&cfg);
+    }
     let property = cfg.property;
     vcore::main_for(property, move |run, replay| engine_body(run, replay, &cfg))
+}
+
+/// development aid: per-seed cost of the first unit (single thread), most expensive first
+fn profile(cfg: &EngineConfig) -> ! {
+    vcore::install_panic_hook();
+    let tier = match std::env::var("VERIF_TIER").as_deref() {
+        Ok("thorough") => Tier::Thorough,
+        _ => Tier::Quick,
+    };
+    let b = bounds_for(tier, cfg.mode);
+    let (seeds, st) = build_seeds(tier);
+    let plan = make_plan(tier, cfg.mode, cfg, seeds, st);
+    let mut rows: Vec<(f64, u64, u64, String, usize)> = vec![];
+    let mut seen = HashSet::new();
+    for u in &plan.units {
+        let seed = &plan.seeds[u.seed];
+        if seed.class == "zero" || seed.class == "static" || !seen.insert(u.seed) {
+            continue;
+        }
+        let mut buf = vec![];
+        let mut ign = 0;
+        let t0 = Instant::now();
+        let mut n = 0u64;
+        let mut calls = 0u64;
+        for_each_case(seed, u, |no, bl, dev| {
+            dev.apply(&seed.data[..bl], &mut buf);
+            if let Ok(o) = run_case(seed, &buf, cfg, &b, &mut ign) {
+                calls += o.calls;
+            }
+            n += 1;
+            no < 100
+        });
+        let dt = t0.elapsed().as_secs_f64();
+        rows.push((dt / n as f64 * 1e6, calls / n.max(1), n, seed.name.clone(), seed.data.len()));
+    }
+    rows.sort_by(|a, b| b.0.partial_cmp(&a.0).unwrap());
+    for r in rows.iter().take(60) {
+        println!("{:10.1} us/case  {:9} calls/case  n={} len={} {}", r.0, r.1, r.2, r.4, r.3);
+    }
+    let tot: f64 = rows.iter().map(|r| r.0).sum();
+    println!("seeds={} mean us/case={:.1}", rows.len(), tot / rows.len() as f64);
+    std::process::exit(0)
 }
